@@ -307,7 +307,7 @@ def build_model(spec):
 
 
 def make_contrib(c):
-    """c: 'abs' | 'ray' | ['cia', [pairs]] | ['clouds', P] | ['flat', {kw}] | ['lee', {kw}] | 'hm'"""
+    """c: 'abs' | 'ray' | ['cia', [pairs](, 'ctor'|'append'|'setter')] | ['clouds', P] | ['flat', {kw}] | ['lee', {kw}] | 'hm'"""
     from taurex import contributions as C
     if c == 'abs':
         return C.AbsorptionContribution()
@@ -317,6 +317,16 @@ def make_contrib(c):
         return C.HydrogenIon()
     if isinstance(c, (list, tuple)):
         if c[0] == 'cia':
+            via = c[2] if len(c) > 2 else 'ctor'
+            if via == 'append':         # default-constructed, pairs appended to the public list one by one
+                k = C.CIAContribution()
+                for pair in c[1]:
+                    k.ciaPairs.append(pair)
+                return k
+            if via == 'setter':
+                k = C.CIAContribution()
+                k.ciaPairs = list(c[1])
+                return k
             return C.CIAContribution(cia_pairs=list(c[1]))
         if c[0] == 'clouds':
             return C.SimpleCloudsContribution(clouds_pressure=c[1])
